@@ -31,6 +31,8 @@ class Bank:
         self.advance_dtr0 = advance_dtr0      # a non-conforming unit may not advance DTR0
         self.wrong_echo = wrong_echo          # a non-conforming unit may echo another byte
         self.writes = []                      # (location, value) actually stored
+        self.stall_writes = set()             # a non-conforming unit may fail to advance DTR0 at the k-th write (0-based)
+        self.n_write_cmds = 0
         if number != 0 and self.image[2] is None:
             self.image[2] = 0xFF
 
@@ -47,6 +49,16 @@ class Bank:
             return None
         src = self.snapshot if (self.snapshot is not None and loc != 2) else self.image
         return src[loc]
+
+    def should_advance(self, writing):
+        if not self.advance_dtr0:
+            return False
+        if writing:
+            k = self.n_write_cmds
+            self.n_write_cmds += 1
+            if k in self.stall_writes:
+                return False
+        return True
 
     def write(self, loc, value):
         """Returns the echoed byte or None (NO)."""
